@@ -51,3 +51,22 @@ def map_calls(C, o, which, names=None):
 
 def sends(o, sender_ty):
     return [(i, args, node) for i, cal, args, node in sem.calls(o, lambda c: c.rsplit('::', 1)[-1] == 'send') if sem.recv_ty(node) == sender_ty]
+
+
+def net_registration(C, o, which, key):
+    """What a path of an arm does, in sum, to the routing entry of `key` in the map `which` ('result' / 'search'), given that the
+    entry existed when the path began: 'kept' (never removed, or taken out and put back - the same sender under the same key),
+    'dropped' (removed and not put back), 'replaced' (something else was stored under the key)."""
+    state, taken = 'kept', []
+    for i, name, args, node in map_calls(C, o, which):
+        k = args[1] if len(args) > 1 else None
+        if name in ('remove', 'remove_entry') and k == key:
+            state = 'dropped'
+            taken.append(('call', [e for e in o.st.ev if e[0] == 'call' and e[3] is node][0][1], tuple(args), node.get('id')))
+        elif name == 'insert' and k == key:
+            v = args[2] if len(args) > 2 else None
+            same = any(v == ('variant', t, 'Some', 0) or (v is not None and sem.has(v, lambda x, t=t: x == ('variant', t, 'Some', 0)) and v[0] == 'call' and v[1].endswith('::clone')) for t in taken)
+            state = 'kept' if (same and state == 'dropped') else 'replaced'
+        elif name in ('clear', 'drain', 'retain'):
+            state = 'dropped'
+    return state
